@@ -76,6 +76,7 @@ class Config:
             self.box = 20.0
         self.comps = []
         self.annealer = bool(self.pt and self.ntemps >= 3 and rng.random() < 0.25)
+        self.ras = bool(self.pt and self.ntemps >= 2 and self.seed % 4 == 0)      # reset_after_swap (no extra draw from rng)
         if (rng.random() < 0.15 and td is None) or td:
             self.prop_kind = 'td'
             n = rng.choice([2, 3, 4])
@@ -87,7 +88,7 @@ class Config:
     def describe(self):
         return dict(pt=self.pt, nparams=self.nparams, blobs=self.blobs, nchains=self.nchains, ntemps=self.ntemps,
                     swap_interval=self.si, betas=self.betas, proposals=self.prop_kind, box=self.box, seed=self.seed,
-                    annealer=getattr(self, 'annealer', False))
+                    annealer=getattr(self, 'annealer', False), reset_after_swap=getattr(self, 'ras', False))
 
     def build(self, tracer, seed=None):
         if self.prop_kind == 'td':
@@ -105,7 +106,8 @@ class Config:
                 from epsie.chain.ptchain import DynamicalAnnealer
                 ann = DynamicalAnnealer(tau=20, nu=2, Tmax_prior=(self.betas[-1] == 0.0))
             s = ParallelTemperedSampler(self.params, model, self.nchains, betas=numpy.array(self.betas),
-                                        swap_interval=self.si, proposals=props, adaptive_annealer=ann, seed=seed)
+                                        swap_interval=self.si, proposals=props, adaptive_annealer=ann, seed=seed,
+                                        reset_after_swap=getattr(self, 'ras', False))
         else:
             s = MetropolisHastingsSampler(self.params, model, self.nchains, proposals=props, seed=seed)
         return s
